@@ -855,7 +855,8 @@ def crc_generators(facts, orc):
 def header_construction(facts, orc):
     t = R("CONSTRUCT/header", "frame headers on the encode path come from from_size / from_bits / from_freq of the block's "
           "own values, reserved codes are never constructed, the fixed-blocking number is the caller's frame number")
-    rv, b = ret_of(facts, "coding::encode_frame_impl")
+    b = body_by_suffix(facts, "coding::encode_frame_impl")
+    _ev, rv, _ = E.analyse(facts, b, noinline=[r"Spec::from_(size|bits|freq)$"])
     hdr = None
     if isinstance(rv, tuple) and rv[0] == "agg" and rv[1] == DT + "Frame":
         hdr = rv[3][0]
